@@ -1,28 +1,238 @@
-"""Everything around the Verus units: bounded Kani stand-ins, pure lemmas, contract teeth, stand-in
-audit, counterexample replay. Filled in unit by unit; every part reports into the evidence and can
-only add `undecided` reasons or (for bounded Kani parts with a concrete failing input) violations."""
+"""Everything around the Verus units: pure lemmas, contract teeth, bounded Kani stand-ins, stand-in
+audit, counterexample replay. Every part reports into the evidence; these parts can only add
+`undecided` reasons or (Kani parts with a concrete failing input) violations — never proof counts."""
+import concurrent.futures as cf
+import glob
 import json
 import os
+import re
+import shutil
 import subprocess
 import time
+import tomllib
+
+from . import build as B
+from . import verus as V
+
+HERE = os.path.dirname(os.path.dirname(os.path.abspath(__file__)))
+BUILD = os.path.join(HERE, "build")
 
 GLOBAL_ASSUMPTIONS = [
     "composition across threads is a paper argument (DESIGN.md §6): Verus checks each function against its callees' contracts under a sequential semantics",
     "shared maps are read through one fixed abstract view for the duration of a call (DESIGN.md §3.1)",
     "atomics: rely/guarantee invariants contain only monotone single-location facts; the closed-world rule on protected fields is checked textually",
     "stand-in contracts of dependencies (revm, alloy-evm, dashmap, parking_lot, std) are assumed: see coverage.trusted_base",
-    "machine integers: usize as in Verus' architecture-independent model; U256 as nat < 2^256 where a view is used",
-    "termination of lock-free retry / helping loops is not claimed (exec_allows_no_decreases_clause spliced on them)",
+    "machine integers: usize as in Verus' architecture-independent model; U256 as nat < 2^256 through its view",
+    "termination of lock-free retry / helping / coordinator loops is not claimed (exec_allows_no_decreases_clause spliced on them)",
     "extraction rewrites R1..R14 (DESIGN.md §4) preserve run-time behaviour; every exec-touching site is listed in coverage.exec_touching_rewrites",
+    "derive(Clone)/derive(PartialEq)/derive(Default) of extracted types are structural",
 ]
+
+# pure Verus lemma files: (file, properties)
+LEMMAS = [
+    ("lemmas/L1_cursor_trace.rs", ["C15"]),
+]
+
+# bounded Kani parts: name -> (crate dir, harnesses, properties, bound text)
+KANI = {
+    "U26": {"dir": "kani/u26", "props": ["C15"],
+            "bound": "sequential (Kani has no threads); num_txs <= 4; unwind 6"},
+    "U22b": {"dir": "kani/u22b", "props": ["C13"],
+             "bound": "account schedules of <= 3 transactions (thorough: 4), fully symbolic 256-bit costs; unwind 34 (U256 == is a 32-byte memcmp)"},
+}
+
+
+def run_lemmas(prop):
+    out, undecided = [], []
+    for rel, props in LEMMAS:
+        if prop not in props:
+            continue
+        path = os.path.join(HERE, rel)
+        if not os.path.exists(path):
+            undecided.append("lemma file %s missing" % rel)
+            continue
+        dst = os.path.join(BUILD, prop, os.path.basename(rel))
+        os.makedirs(os.path.dirname(dst), exist_ok=True)
+        shutil.copyfile(path, dst)
+        r = V.run_verus(dst)
+        vr = (r.json or {}).get("verification-results", {})
+        ok = bool(vr.get("success"))
+        out.append({"lemma": rel, "verified": vr.get("verified"), "errors": vr.get("errors"), "ok": ok,
+                    "wall_s": round(r.wall, 2)})
+        if not ok:
+            undecided.append("lemma %s does not verify (pure proof broke)" % rel)
+    return out, undecided
+
+
+# ------------------------------------------------------------------------------------------ teeth
+def _teeth_for(unit):
+    return unit.get("teeth", [])
+
+
+def run_teeth(prop, units, run_part_results):
+    """For every `[[teeth]]` entry of the units: mutate the extracted slice IN MEMORY (never /repo),
+    rebuild, and require that the expected clause (or at least one obligation of the function) fails.
+    A contract that survives its own mutation is weak => thorough run is undecided (exit 2)."""
+    from vcheck import failure_tags   # late import (driver module)
+    reports, undecided = [], []
+    jobs = []
+    for u in units:
+        parts = u.get("part") or [None]
+        for t in _teeth_for(u):
+            if t.get("props") and prop not in t["props"]:
+                continue
+            fn = t["function"]
+            part = None
+            for pt in parts:
+                if pt is None or fn in pt["bodies"]:
+                    part = pt
+                    break
+            else:
+                undecided.append("%s: teeth entry for %s: function is a body in no part" % (u["id"], fn))
+                continue
+            jobs.append((u, part, t))
+
+    def one(job):
+        u, part, t = job
+        fn = t["function"]
+        hit = {"n": 0}
+
+        def mutate(fnpath, text):
+            if fnpath != fn:
+                return text
+            if text.count(t["find"]) != 1:
+                hit["n"] = -text.count(t["find"])
+                return text
+            hit["n"] = 1
+            return text.replace(t["find"], t["replace"])
+
+        name = "%s%s_teeth_%s" % (u["id"], ("_" + part["name"]) if part else "", re.sub(r"\W+", "_", t.get("name", fn))[:40])
+        out = os.path.join(BUILD, prop, name + ".rs")
+        rep = {"unit": u["id"], "function": fn, "name": t.get("name", ""), "find": t["find"][:80], "replace": t["replace"][:80]}
+        try:
+            b = B.build_unit(u["_dir"], out, mutate=mutate, bodies=set(part["bodies"]) if part else None)
+        except B.Undecided as e:
+            rep.update(result="build-failed", detail=str(e)[:300])
+            return rep
+        if hit["n"] != 1:
+            rep.update(result="anchor-lost", detail="find string occurs %d times in the extracted slice" % abs(hit["n"]))
+            return rep
+        run = V.run_verus(b.path)
+        fails, infra = V.classify(b, run)
+        ids = []
+        for f in fails:
+            tags, named, oid = failure_tags(f, b)
+            if oid:
+                ids.append(oid)
+        rep["failed_obligations"] = sorted(set(ids))
+        exp = t.get("expect", [])
+        if infra and not fails:
+            rep.update(result="undecided", detail=infra[0][:300])
+        elif exp and all(any(i == e or i.startswith(e) for i in ids) for e in exp):
+            rep["result"] = "caught"
+        elif not exp and ids:
+            rep["result"] = "caught"
+        elif ids:
+            rep.update(result="caught-elsewhere", detail="expected %s" % exp)
+        else:
+            rep["result"] = "SURVIVED"
+        return rep
+
+    with cf.ThreadPoolExecutor(max_workers=int(os.environ.get("VERIF_JOBS", "16"))) as ex:
+        for rep in ex.map(one, jobs):
+            reports.append(rep)
+            if rep["result"] in ("SURVIVED", "anchor-lost", "build-failed", "undecided"):
+                undecided.append("%s: teeth `%s` on %s: %s %s" % (rep["unit"], rep["name"], rep["function"], rep["result"], rep.get("detail", "")))
+    return reports, undecided
+
+
+# ------------------------------------------------------------------------------------------ Kani
+def _kani_env():
+    env = dict(os.environ)
+    env["CARGO_NET_OFFLINE"] = "true"
+    return env
+
+
+def run_kani(prop, tier):
+    """bounded stand-ins (labelled bounded; never counted as discharged proof obligations)"""
+    out, undecided, violations = [], [], []
+    for name, k in KANI.items():
+        if prop not in k["props"]:
+            continue
+        d = os.path.join(HERE, k["dir"])
+        runner = os.path.join(d, "run.py")
+        if not os.path.exists(runner):
+            out.append({"part": name, "status": "not built in this tree", "bound": k["bound"]})
+            continue
+        if tier != "thorough":
+            out.append({"part": name, "status": "skipped in quick tier (thorough only)", "bound": k["bound"]})
+            continue
+        t0 = time.time()
+        try:
+            pr = subprocess.run(["python3", runner, tier], capture_output=True, text=True, timeout=3600, env=_kani_env(), cwd=d)
+            try:
+                rep = json.loads(pr.stdout[pr.stdout.index("{"):])
+            except Exception:
+                rep = {"status": "error", "detail": (pr.stdout + pr.stderr)[-600:]}
+        except subprocess.TimeoutExpired:
+            rep = {"status": "timeout"}
+        rep.update(part=name, bound=k["bound"], wall_s=round(time.time() - t0, 1), level="bounded")
+        out.append(rep)
+        if rep.get("status") == "failed":
+            for h in rep.get("failed_harnesses", []):
+                violations.append({"unit": name, "obligation": "%s.%s" % (name, h["harness"]), "tags": k["props"],
+                                   "verifier": "kani (bounded)", "failure": {"kind": "kani", "message": h.get("message", ""),
+                                                                            "rendered": h.get("detail", "")[-1500:]},
+                                   "counterexample": h.get("counterexample")})
+        elif rep.get("status") not in ("ok",):
+            undecided.append("bounded part %s: %s %s" % (name, rep.get("status"), rep.get("detail", "")[:200]))
+    return out, undecided, violations
+
+
+# ------------------------------------------------------------------------------------------ audit
+def run_audit(prop, tier):
+    d = os.path.join(HERE, "audit")
+    runner = os.path.join(d, "run.py")
+    if tier != "thorough" or not os.path.exists(runner):
+        return [], []
+    try:
+        pr = subprocess.run(["python3", runner, prop], capture_output=True, text=True, timeout=1800, env=_kani_env(), cwd=d)
+        rep = json.loads(pr.stdout[pr.stdout.index("{"):])
+    except Exception as e:
+        return [{"status": "error", "detail": str(e)[:200]}], ["stand-in audit could not run: %s" % str(e)[:200]]
+    und = []
+    if rep.get("status") != "ok":
+        und.append("stand-in audit: %s" % rep.get("detail", rep.get("status")))
+    return [rep], und
 
 
 def run_extras(prop, tier, units, results):
-    return {"undecided": [], "violations": [], "bounded": [], "lemmas": [], "teeth": [], "audit": []}
+    res = {"undecided": [], "violations": [], "bounded": [], "lemmas": [], "teeth": [], "audit": []}
+    lem, und = run_lemmas(prop)
+    res["lemmas"] = lem
+    res["undecided"] += und
+    bounded, und, viol = run_kani(prop, tier)
+    res["bounded"] = bounded
+    res["undecided"] += und
+    res["violations"] += viol
+    if tier == "thorough":
+        teeth, und = run_teeth(prop, units, results)
+        res["teeth"] = teeth
+        res["undecided"] += und
+        aud, und = run_audit(prop, tier)
+        res["audit"] = aud
+        res["undecided"] += und
+    return res
 
 
 def setup():
-    return 0
+    rc = 0
+    for name, k in KANI.items():
+        runner = os.path.join(HERE, k["dir"], "run.py")
+        if os.path.exists(runner):
+            pr = subprocess.run(["python3", runner, "setup"], capture_output=True, text=True, env=_kani_env(), cwd=os.path.dirname(runner))
+            print("kani %s setup: rc=%d %s" % (name, pr.returncode, pr.stdout.strip()[-200:]))
+    return rc
 
 
 def replay_counterexample(rp):
@@ -30,5 +240,5 @@ def replay_counterexample(rp):
 
 
 def replay_other(rp):
-    print(json.dumps(rp, indent=1))
+    print(json.dumps(rp, indent=1)[:4000])
     return 0
